@@ -180,6 +180,51 @@ def addMode (st : GS K) (m : Nat) : GS K :=
     M := fun i j => if i < st.n ∧ j < st.n then st.M i j else 0
     mean := fun i => if i < st.n then st.mean i else 0 }
 
+/-! ### multi-mode operations applied natively: `GaussianBackend.passive` → `apply_u`,
+`prepare_gaussian_state` → `fromscovmat` / `fromsmean` -/
+
+/-- `Σ_{k < n} f k` for complex pairs -/
+def csum (n : Nat) (f : Nat → Cx K) : Cx K :=
+  match n with
+  | 0 => 0
+  | m + 1 => csum m f + f m
+
+/-- position of mode `i` in a mode list (`None` if absent) -/
+def posIn (modes : List Nat) (i : Nat) : Option Nat :=
+  if modes.contains i then some (modes.idxOf i) else none
+
+/-- `T_expand = identity(nlen); T_expand[ix_(modes, modes)] = T` (`GaussianBackend.passive`) -/
+def expandT (modes : List Nat) (T : Nat → Nat → Cx K) : Nat → Nat → Cx K := fun i j =>
+  match posIn modes i, posIn modes j with
+  | some a, some b => T a b
+  | none, none => if i = j then ofK 1 else 0
+  | _, _ => 0
+
+/-- `apply_u(U)`: `mean = U @ mean`, `nmat = U.conj() @ nmat @ U.T`, `mmat = U @ mmat @ U.T` -/
+def applyU (st : GS K) (U : Nat → Nat → Cx K) : GS K :=
+  { n := st.n
+    mean := fun i => csum st.n fun k => U i k * st.mean k
+    N := fun i j => csum st.n fun k => csum st.n fun l => conj (U i k) * st.N k l * U j l
+    M := fun i j => csum st.n fun k => csum st.n fun l => U i k * st.M k l * U j l }
+
+/-- `fromscovmat(V, modes)` followed by `fromsmean(r, modes)` as called by
+`prepare_gaussian_state`: the listed modes are first reset (`loss(0, mode)`), then the block
+`nmat[rows, cols]`, `mmat[rows, cols]` and the means are written from the blocks
+`A = V_xx`, `B = V_xp`, `C = V_pp` (hbar = 2) of the given covariance, in the order of `modes`.
+`quarter` is the number `1/4`, `half` the number `1/2`. -/
+def fromCov (st : GS K) (quarter half : K) (modes : List Nat) (A B C : Nat → Nat → K) (rx rp : Nat → K) : GS K :=
+  let st0 := modes.foldl (fun s m => loss s 0 m) st
+  { n := st.n
+    N := fun i j => match posIn modes i, posIn modes j with
+      | some a, some b => ⟨quarter * (A a b + C a b - (if a = b then 1 + 1 else 0)), quarter * (B a b - B b a)⟩
+      | _, _ => st0.N i j
+    M := fun i j => match posIn modes i, posIn modes j with
+      | some a, some b => ⟨quarter * (A a b - C a b), quarter * (B a b + B b a)⟩
+      | _, _ => st0.M i j
+    mean := fun i => match posIn modes i with
+      | some a => ⟨half * rx a, half * rp a⟩
+      | none => st0.mean i }
+
 /-! ### quadrature picture (`scovmatxp`, `smeanxp`; hbar = 2) -/
 
 def Vxx (st : GS K) (i j : Nat) : K :=
